@@ -37,6 +37,8 @@ pub struct Knobs {
     pub pure_fn_bodies: bool,
     /// add `DEF FNK(J) = J / 0` (always fails) and `DEF FNQ(J) = FNQ(J) + 1` (overflows the frame cap)
     pub special_defs: bool,
+    /// INPUT targets may have a subscript that draws a random number (evaluated once per attempt)
+    pub rnd_input_subscript: bool,
 }
 
 impl Knobs {
@@ -63,6 +65,7 @@ impl Knobs {
             resumable_in_then_else: true,
             pure_fn_bodies: false,
             special_defs: false,
+            rnd_input_subscript: false,
         }
         .finish(rng)
     }
@@ -403,7 +406,17 @@ impl<'a> Gen<'a> {
                 }
                 15 if self.k.input => {
                     self.inputs += 1;
-                    let t = if self.k.strings && self.rng.chance(1, 3) {
+                    let t = if self.k.rnd_input_subscript && self.rng.chance(1, 2) {
+                        // C(INT(RND(1) * 3)): the subscript has a side effect on the generator
+                        LValue {
+                            name: "C".into(),
+                            index: Some(vec![Expr::Int(Box::new(Expr::Bin(
+                                BinOp::Mul,
+                                Box::new(Expr::Rnd(Box::new(Expr::Num(1.0)))),
+                                Box::new(Expr::Num(3.0)),
+                            )))]),
+                        }
+                    } else if self.k.strings && self.rng.chance(1, 3) {
                         self.str_target()
                     } else {
                         self.num_target()
@@ -579,7 +592,11 @@ impl<'a> Gen<'a> {
             step,
         };
         if self.k.multi_stmt && self.rng.chance(1, 5) {
-            // whole loop on one line
+            // whole loop on one line; sometimes with an empty body (the classic delay loop)
+            if self.rng.chance(1, 3) {
+                self.push_line(vec![for_stmt, Stmt::Next(var)]);
+                return;
+            }
             let body = self.simple();
             self.push_line(vec![for_stmt, body, Stmt::Next(var)]);
             return;
@@ -805,6 +822,16 @@ impl<'a> Gen<'a> {
                     els: None,
                 },
             ]);
+            // at the deepest level a user function is called: with `depth` frames on the shared stack
+            // the call needs frame depth+1 (31 -> fine, 32 -> refused)
+            if !self.funcs.is_empty() && self.rng.chance(2, 3) {
+                let (name, arity) = self.rng.pick(&self.funcs.clone());
+                let args = (0..arity).map(|_| Expr::Num(2.0)).collect();
+                self.push_line(vec![Stmt::Print {
+                    q: false,
+                    items: vec![PItem::E(Expr::Str("deep".into())), PItem::Semi, PItem::E(Expr::Call(name, args))],
+                }]);
+            }
             self.push_line(vec![Stmt::Return]);
         }
         // numbering
